@@ -68,9 +68,9 @@ def write_elf(path, segs, ps=4096, machine="x86_64", elfclass=64, be=False, nuls
         off += (filesz + ps - 1) // ps * ps
     ident = b"\x7fELF" + bytes([2 if elfclass == 64 else 1, 2 if be else 1, 1, 0]) + b"\0" * 8
     if elfclass == 64:
-        eh = ident + struct.pack(E + "HHIQQQIHHHHHH", etype, EM[machine], 1, 0, ehsz, 0, 0, ehsz, phsz, nph, 0, 0, 0)
+        eh = ident + struct.pack(E + "HHIQQQIHHHHHH", etype, EM.get(machine, machine), 1, 0, ehsz, 0, 0, ehsz, phsz, nph, 0, 0, 0)
     else:
-        eh = ident + struct.pack(E + "HHIIIIIHHHHHH", etype, EM[machine], 1, 0, ehsz, 0, 0, ehsz, phsz, nph, 0, 0, 0)
+        eh = ident + struct.pack(E + "HHIIIIIHHHHHH", etype, EM.get(machine, machine), 1, 0, ehsz, 0, 0, ehsz, phsz, nph, 0, 0, 0)
     with open(path, "wb") as f:
         f.write(eh + ph + notes)
         nulset = set(nuls)
